@@ -653,6 +653,10 @@ class Interp:
 
     def loop(self, n: ast.For, it: AV, s: State) -> list[State]:
         self.loops.setdefault(id(n), []).append((it, self.elem_of(it, n), s.clone()))
+        # enumerate() over a closed collection is a closed collection of (index, item) pairs
+        if isinstance(it, App) and it.func == "enumerate" and it.args and isinstance(it.args[0], ListV) and not it.args[0].open and len(it.args[0].items) <= 12:
+            start = it.args[1].v if len(it.args) > 1 and isinstance(it.args[1], Const) and isinstance(it.args[1].v, int) else 0
+            it = ListV(tuple(ListV((Const(start + i), x), kind="tuple") for i, x in enumerate(it.args[0].items)))
         # closed literal collections are unrolled
         if isinstance(it, ListV) and not it.open and len(it.items) <= 12:
             states = [s]
